@@ -126,6 +126,20 @@ def make_case(ctx, g):
         ctx.count("bundle-that-cannot-be-unified")
     if g.chance(0.15) and b.cross_kind_cluster(g.choice(scopes)):
         ctx.count("one-identifier-two-merged-kinds")
+    pending = None
+    if g.chance(0.12):
+        # two anonymous statements that differ by one attribute; after the exports the missing attribute is added, so that the two
+        # become one and the same statement: nothing an exporter computed about them before the change may survive it
+        EXN = Namespace("ex", "http://example.org/")
+        from prov.constants import PROV as _P
+        c_ = g.choice(scopes)
+        fa = [(_P["activity"], QualifiedName(EXN, "act")), (_P["entity"], QualifiedName(EXN, "ent"))]
+        extra = (QualifiedName(EXN, "k"), g.choice([1, "one", True]))
+        w.new_record(c_, "Usage", None, fa + [extra])
+        h_, _e = w.new_record(c_, "Usage", None, fa)
+        if h_ is not None:
+            pending = (h_, extra)
+            ctx.count("two-statements-made-equal-after-export")
     doc = w.conts[d]
     twin_world = replay_ops(w.ops)
     twin = twin_world.conts[d]
@@ -189,7 +203,9 @@ def make_case(ctx, g):
                 fails.append(Failure("oracle", None, "%s export changed after other exporters (%s) ran" % (name, sorted(used)),
                                      {"ops": list(w.ops), "export": name, "sequence": sorted(used)}))
     n_before_change = len(w.ops)
-    if twin_world is not None and not fails and g.chance(0.3) and b.mutate_in_place([d]):
+    if pending is not None and twin_world is not None and not fails:
+        w.add_attrs(pending[0], [pending[1]])
+    if twin_world is not None and not fails and ((g.chance(0.3) and b.mutate_in_place([d])) or pending is not None):
         # second chapter: the document is changed in place after it has been through the exporters; a document built afresh
         # by the same operations has never been exported: both must export alike (nothing remembered from before)
         ctx.count("changed-after-first-export")
